@@ -6,7 +6,7 @@ from __future__ import annotations
 import dataclasses
 import weakref
 from contextvars import ContextVar
-from dataclasses import dataclass
+from dataclasses import dataclass, field
 from typing import (
     Any,
     Generic,
@@ -101,6 +101,13 @@ class StepWorkerWaiter(Generic[EventType]):
     resolved_event: EventType | None
     # set to true when the waiter has timed out, such that the step raises asyncio.TimeoutError
     timed_out: bool = False
+    # retry bookkeeping of the invocation that registered the wait: the replay that
+    # delivers the awaited event (or the timeout) continues that same attempt
+    attempts: int | None = None
+    first_attempt_at: float | None = None
+    last_exception: Exception | None = None
+    last_failed_at: float | None = None
+    recovery_counts: dict[str, int] = field(default_factory=dict)
 
 
 @dataclass()
